@@ -6,6 +6,7 @@ HARNESSES = {
 
 PROPS = {
     "C08": {
+        "deadline": {"quick": 900, "thorough": 2700},
         "runs": {
             # one process per shard runs the whole list of scopes of the tier (plan() in checks/rectclip.cpp), cheap scopes first,
             # so that the driver's deadline bounds the tier as a whole
